@@ -55,6 +55,7 @@ Print Assumptions C15_worker_call_is_next.
 (* A block or tick while no rebroadcast runs starts one over exactly the
    pending set; while one runs it changes nothing (no overlap). *)
 Theorem C15_trigger_starts : forall depsort s e, is_trigger e -> wk s = WIdle -> stopped s = false ->
+  hbusy s = None ->
   let s' := fst (step depsort s e) in
   snap s' = pending s /\ sent s' = [] /\ pending s' = pending s /\
   wk s' = WRun (match pending s with [] => [] | z :: l0 => depsort (nsort s) (z :: l0) end).
@@ -78,30 +79,55 @@ Theorem C15_model_holds : forall deps depsort,
 Proof. exact model_holds. Qed.
 Print Assumptions C15_model_holds.
 
-(* (d) Neither MarkAsConfirmed nor Broadcast nor Stop ever waits on the
-   handler after Stop (quit case), and before Stop the handler takes them. *)
+(* (d) Callers never wait indefinitely.  After Stop, MarkAsConfirmed, Broadcast
+   and Stop itself return through the quit case; before Stop an idle handler
+   serves them; a Broadcast caller whose request the handler is serving
+   (handler inside cfg.Broadcast) is released by Stop with
+   ErrBroadcasterStopped, or answered when the call returns; and the
+   handler's reply is always enabled (errChan has capacity 1), whether the
+   caller is still there or not. *)
 Theorem C15_callers_return : forall depsort s tx o,
-  snd (step depsort s (EConf tx)) = (if stopped s then OConfQuit else OConfd tx) /\
-  (exists r, snd (step depsort s (EBroadcast tx o)) = ORet tx r /\
-             (stopped s = true -> r = RStopped) /\
-             (stopped s = false -> r = if accepted o then RNil else RErr o)) /\
-  snd (step depsort s EStop) = OStop.
+  (stopped s = true ->
+     snd (step depsort s (EConf tx)) = OConfQuit /\
+     snd (step depsort s (EBroadcast tx o)) = ORet tx RStopped /\
+     snd (step depsort s (EBcStart tx)) = ORet tx RStopped /\
+     snd (step depsort s EStop) = OStop) /\
+  (stopped s = false -> hbusy s = None ->
+     snd (step depsort s (EConf tx)) = OConfd tx /\
+     snd (step depsort s (EBroadcast tx o)) = ORet tx (if accepted o then RNil else RErr o) /\
+     snd (step depsort s (EBcStart tx)) = OBcHeld tx /\
+     snd (step depsort s EStop) = OStop) /\
+  (forall b, hbusy s = Some b ->
+     (stopped s = false ->
+        snd (step depsort s EStop) = OStopBc b /\
+        snd (step depsort s (EBcRet o)) = ORet b (if accepted o then RNil else RErr o)) /\
+     (stopped s = true -> snd (step depsort s (EBcRet o)) = OAnsH) /\
+     hbusy (fst (step depsort s (EBcRet o))) = None).
 Proof. exact callers_return. Qed.
 Print Assumptions C15_callers_return.
 
-(* Stop's wait for the worker ends: after Stop nothing revives or prolongs the
-   worker, and the worker's own next transitions (the return of the call in
-   flight, then its exit) reach the idle state within two steps. *)
+(* Stop's wait for the worker and the handler ends: after Stop no event
+   revives or prolongs either of them, each one's own next transition
+   strictly shortens the wait, and the return of the handler's call (if one
+   is open, whatever it answers, caller gone) followed by at most two
+   transitions of the worker (the return of its call in flight, whatever it
+   answers - including "confirmed" -, then its exit) leaves both gone. *)
 Theorem C15_stop_monotone : forall depsort s e, stopped s = true ->
   stopped (fst (step depsort s e)) = true /\
-  (wmeasure (fst (step depsort s e)) <= wmeasure s)%nat.
+  (tmeasure (fst (step depsort s e)) <= tmeasure s)%nat.
 Proof. exact stopped_monotone. Qed.
 Print Assumptions C15_stop_monotone.
 
-Theorem C15_stop_completes : forall depsort s o1 o2, stopped s = true ->
-  let s1 := fst (step depsort s (wnext s o1)) in
+Theorem C15_stop_worker_progress : forall depsort s o, stopped s = true -> wk s <> WIdle ->
+  (tmeasure (fst (step depsort s (wnext s o))) < tmeasure s)%nat.
+Proof. exact stop_drains. Qed.
+Print Assumptions C15_stop_worker_progress.
+
+Theorem C15_stop_completes : forall depsort s o0 o1 o2, stopped s = true ->
+  let s0 := fst (step depsort s (hnext o0)) in
+  let s1 := fst (step depsort s0 (wnext s0 o1)) in
   let s2 := fst (step depsort s1 (wnext s1 o2)) in
-  wk s2 = WIdle.
+  wk s2 = WIdle /\ hbusy s2 = None.
 Proof. exact stop_completes. Qed.
 Print Assumptions C15_stop_completes.
 
@@ -146,7 +172,9 @@ Print Assumptions C15_verdict_error_code.
 (* ------------------------------------------------------------------ *)
 (* non-vacuity: a diamond 1 <- 2,3 <- 4, a rejected tx 5, a block, a tick that
    is skipped, a peer-reported confirmation, MarkAsConfirmed, a second
-   rebroadcast, Stop in the middle of it *)
+   rebroadcast, a Broadcast request held open (a MarkAsConfirmed waits meanwhile),
+   Stop in the middle of a second held request and of the rebroadcast, whose
+   call then answers "confirmed" *)
 Example C15_nonvacuous :
   let deps := [(2, [1]); (3, [1]); (4, [2; 3])] in
   let ds := fun (k : nat) (l : list Z) =>
@@ -155,16 +183,18 @@ Example C15_nonvacuous :
               EBroadcast 1 OAccept; EBroadcast 3 OAccept; EBlock;
               EWCall; ETick; EWRet (ORej Confirmed); EWHandoff;
               EWCall; EWRet OAccept; EWCall; EWRet OOther; EWCall; EWRet OAccept; EWDone;
-              EConf 2; EBlock; EWCall; EStop; EConf 3; EWRet OAccept; EWDone;
+              EConf 2; EBlock; EWCall; EBcStart 1; EConf 4; EBcRet (ORej Mempool);
+              EBcStart 2; EStop; EConf 3; EWRet (ORej Confirmed); EBcRet OAccept; EWDone;
               EBroadcast 1 OAccept] in
   holds deps (trace ds evs) = true /\
   map snd (trace ds evs) =
     [ORet 4 RNil; ORet 2 RNil; ORet 5 (RErr (ORej Invalid)); ORet 1 RNil; ORet 3 RNil; OTrig;
      OSent 1; OTrig; OAns; OHand 1;
      OSent 3; OAns; OSent 2; OAns; OSent 4; OAns; ODone;
-     OConfd 2; OTrig; OSent 3; OStop; OConfQuit; OAns; ODone;
+     OConfd 2; OTrig; OSent 3; OBcHeld 1; ONone; ORet 1 RNil;
+     OBcHeld 2; OStopBc 2; OConfQuit; OAns; OAnsH; ODone;
      ORet 1 RStopped] /\
-  pending (run ds evs) = [4; 3].
+  pending (run ds evs) = [4; 3; 1].
 Proof. vm_compute. repeat split. Qed.
 
 (* non-vacuity of the verdict: all repliers rejected / threshold reached
